@@ -14,7 +14,7 @@ package hashprefix
 //vx:stub time.Now vxC19Now
 //vx:note SHA-256 is an uninterpreted function (fresh symbolic 32-byte value per distinct input, so collisions of prefixes and of whole hashes between different names and with database entries are inside); the public-suffix table is a stub returning the last k labels (k symbolic, 1..min(labels,4)) and a symbolic ICANN bit
 //vx:note lookup service = harness fake holding a database D of symbolic full hashes; it answers exactly the members of D whose 2-byte prefix was asked (own hex codec, independent of encoding/hex), as one TXT RR per hash or all in one RR, next to a non-TXT RR and one malformed string (wrong length, or 64 characters with a non-hex one)
-//vx:note Names/Verdict entries: one check against a cache that holds nothing.  Cache entry: cache = harness fake of golibs cache.Cache that never evicts (eviction policy is outside); clock = stub of time.Now, constant within one Check, advancing by a symbolic amount between checks; cache time symbolic in [0,48h]
+//vx:note Names/Verdict entries: one check against a cache that holds nothing.  Cache entry: cache = harness fake of golibs cache.Cache that never evicts (eviction policy is outside); clock = stub of time.Now, constant within one Check, advancing by a symbolic amount between checks; cache time 10 min (thorough also 0, 1 s, 30 min); seconds and nanoseconds of the clock symbolic
 //vx:note Lookup entry (fresh cache): host of 1..6 (thorough 1..8) labels of 1..2 symbolic ASCII bytes, |D| <= 2 (thorough 3).  Cache entry: 2 (thorough 3) checks sharing one cache; later hosts are the same name, a parent, a child, a sibling or an unrelated name; D is replaced by an arbitrary new database exactly when the clock has passed the previous check's time + cache time (entries of that check must have expired), otherwise it stays
 //vx:note outside: SHA-256 itself, the public-suffix table (ICANN suffixes longer than 4 labels do not exist), cache eviction, upstream errors, a service that answers hashes that were not asked for, concurrent checks
 
@@ -222,7 +222,7 @@ func vxC19SymPos() []int {
 	if vx.Thorough() {
 		return []int{0, 1, 2, 3, 15, 16, 30, 31}
 	}
-	return []int{0, 1, 2, 31}
+	return []int{0, 1, 31}
 }
 
 // vxC19Digit is a symbolic lower-case hex digit.
@@ -452,7 +452,12 @@ func vxC19Verdict() {
 	vxC19Suffix.labels = 1
 	vxC19Suffix.icann = false
 	svc := &vxC19Service{suffix: "sb.dns.adguard.com."}
-	dbsize := vx.Choice("dbsize", maxDB+1)
+	// a database of two hashes neither of which is asked for behaves like a
+	// smaller one: quick uses two only
+	dbsize := maxDB
+	if vx.Thorough() {
+		dbsize = vx.Choice("dbsize", maxDB+1)
+	}
 	svc.setDB("db", dbsize)
 	if vx.Thorough() {
 		svc.layout = vx.Choice("layout", 2)
@@ -460,14 +465,11 @@ func vxC19Verdict() {
 			svc.hasBad, svc.bad = true, vxC19Bad(kind, []int{0, 1, 62, 63}[vx.Choice("badpos", 4)])
 		}
 	} else {
-		// none / non-hex character / wrong length
-		kind := vx.Choice("bad", 3)
-		svc.layout = (kind + dbsize) % 2
-		switch kind {
-		case 1:
-			svc.hasBad, svc.bad = true, vxC19Bad(1, []int{1, 62}[dbsize%2])
-		case 2:
-			svc.hasBad, svc.bad = true, vxC19Bad(2+dbsize%2, 0)
+		// none / non-hex character / too short / too long
+		kind := vx.Choice("bad", 4)
+		svc.layout = kind % 2
+		if kind > 0 {
+			svc.hasBad, svc.bad = true, vxC19Bad(kind, []int{1, 62}[dbsize%2])
 		}
 	}
 	vxC19One(labels, svc)
@@ -476,26 +478,37 @@ func vxC19Verdict() {
 // vxC19Cache: a sequence of checks sharing one cache.
 func vxC19Cache() {
 	vxC19Reset()
-	checks, maxDB, maxLabels := 2, 1, 1
-	relations := []int{0, 2, 4}
+	// quick: one-label name, database of two hashes (one hash after an
+	// expiry), then the same name or a child of it
+	checks, maxLabels := 2, 1
+	relations := []int{0, 2}
 	if vx.Thorough() {
-		maxDB, maxLabels = 2, 2
+		maxLabels = 2
 		relations = []int{0, 1, 2, 3, 4}
 	}
 	svc := &vxC19Service{suffix: "pc.dns.adguard.com.", layout: 1}
 	ca := &vxC19CacheT{}
-	// cache time: whole seconds (thorough: any duration) up to 48 h
-	cacheTime := vx.Int64("cachesec") * 1_000_000_000
-	vx.Assume(vx.And(0 <= cacheTime, cacheTime <= int64(48*time.Hour)))
+	// cache time: whole seconds, concrete (the time package multiplies and
+	// divides by 1e9, which is expensive on symbolic 64-bit values)
+	cacheSec := int64(600)
 	if vx.Thorough() {
-		sub := vx.Int64("cachensec")
-		vx.Assume(vx.And(0 <= sub, sub < 1_000_000_000))
-		cacheTime += sub
+		cacheSec = []int64{600, 0, 1, 1800}[vx.Choice("cachetime", 4)]
 	}
+	cacheTime := cacheSec * 1_000_000_000
 	c := &Checker{upstream: svc, cache: ca, svc: "vx", txtSuffix: svc.suffix, cacheTime: time.Duration(cacheTime)}
 
-	dbsize := 1 + vx.Choice("dbsize", maxDB)
+
+	dbsize, dbsize2 := 2, 1
+	if vx.Thorough() {
+		dbsize = 1 + vx.Choice("dbsize", 2)
+		dbsize2 = dbsize
+	}
 	svc.setDB("db", dbsize)
+	if !vx.Thorough() {
+		// the two hashes share their prefix (several hashes behind one cache
+		// key); thorough: unrelated
+		vx.Assume(svc.dbhex[0][:4] == svc.dbhex[1][:4])
+	}
 
 	sec, nsec := vxC19Base+vx.Int64("t0"), vx.Int64("ns")
 	vx.Assume(vx.And(0 <= sec-vxC19Base, sec-vxC19Base < 1_000_000))
@@ -528,17 +541,17 @@ func vxC19Cache() {
 			}
 			// the clock advances; the database changes only after the entries
 			// of the previous check must have expired
-			dsec, dns2 := vx.Int64("dsec"), vx.Int64("dnsec")
+			dsec, ns2 := vx.Int64("dsec"), vx.Int64("ns")
 			vx.Assume(vx.And(0 <= dsec, dsec <= 4*86400))
-			vx.Assume(vx.And(0 <= dns2, dns2 < 1_000_000_000))
-			prev := sec*1_000_000_000 + nsec
-			sec, nsec = sec+dsec, dns2
-			now := sec*1_000_000_000 + nsec
-			vx.Assume(now >= prev)
-			if now > prev+cacheTime {
+			vx.Assume(vx.And(0 <= ns2, ns2 < 1_000_000_000))
+			vx.Assume(vx.Or(dsec > 0, ns2 >= nsec)) // the clock does not go back
+			// now > previous check + cache time
+			past := vx.Or(dsec > cacheSec, vx.And(dsec == cacheSec, ns2 > nsec))
+			sec, nsec = sec+dsec, ns2
+			if past {
 				vx.Reach("expired")
 				expired = true
-				svc.setDB("db", dbsize)
+				svc.setDB("db", dbsize2)
 			} else {
 				vx.Reach("fresh")
 			}
